@@ -21,7 +21,7 @@ import (
 	"github.com/jamespfennell/gtfs/journal"
 )
 
-var c20IDs = []string{"%d23456_L..N0%d", "", "with space %d", " lead%d", "é%d-x", "1A 0%d23+ PEL/BBR", "a&b<c>'d%d;e=f|g\\h", "\tlead%d", "trail%d ", "\u00a0nbsp%d\u00a0", "Caf\xe9-%d\xff"}
+var c20IDs = []string{"%d23456_L..N0%d", "", "with space %d", " lead%d", "é%d-x", "1A 0%d23+ PEL/BBR", "a&b<c>'d%d;e=f|g\\h", "\tlead%d", "trail%d ", "\u00a0nbsp%d\u00a0", "Caf\xe9-%d\xff", "-6213555%d_6..N01R", "+%d=@x"}
 
 func c20Gen(c *Ctx, maxTrips int) *journal.Journal {
 	j := &journal.Journal{}
